@@ -138,14 +138,14 @@ Proof.
   apply ext_append. unfold server_field. tauto.
 Qed.
 
-Lemma ext_bh_conn c conn clh t : ext c t (bh_conn cap lower conn clh t).
+Lemma ext_bh_conn c conn fc clh t : ext c t (bh_conn cap lower conn fc clh t).
 Proof.
   unfold bh_conn.
   destruct (negb (t_v11 t)).
-  - destruct (beqb conn _); [|apply ext_scof].
+  - destruct (beqb conn _ && negb fc); [|apply ext_scof].
     destruct (negb (truthy clh)); [apply ext_scof|]. apply ext_append. unfold server_field. tauto.
-  - set (t1 := if beqb conn _ then _ else t).
-    assert (E1 : ext c t t1) by (subst t1; destruct (beqb conn _); [apply ext_scof|apply ext_refl]).
+  - set (t1 := if beqb conn _ || fc then _ else t).
+    assert (E1 : ext c t t1) by (subst t1; destruct (beqb conn _ || fc); [apply ext_scof|apply ext_refl]).
     destruct (negb (truthy clh)); auto.
     set (t2 := if has_body t1 then _ else t1).
     assert (E2 : ext c t1 t2).
@@ -191,8 +191,8 @@ Proof.
   { subst t0 a. unfold bh_loop. cbn [t_rh set_rh]. rewrite bh_fold_rh. reflexivity. }
   pose proof (ext_bh_clen c a t0) as E1.
   destruct (bh_clen a t0) as [clh t1]. cbn [snd] in E1.
-  pose proof (ext_bh_conn c (request_connection r) clh t1) as E2.
-  set (t2 := bh_conn cap lower (request_connection r) clh t1) in *.
+  pose proof (ext_bh_conn c (request_connection r) (r_connection_close r) clh t1) as E2.
+  set (t2 := bh_conn cap lower (request_connection r) (r_connection_close r) clh t1) in *.
   pose proof (ext_bh_server c a t2) as E3.
   pose proof (ext_bh_date c a (bh_server c a t2)) as E4.
   pose proof (ext_trans _ _ _ _ (ext_trans _ _ _ _ (ext_trans _ _ _ _ E1 E2) E3) E4) as [(sf & Es & Fs) [As Bs]].
